@@ -1,0 +1,652 @@
+/*
+  Verification hooks (see kalign_verif.h). Compiled to nothing unless
+  -DKALIGN_VERIF is given.
+*/
+#ifdef KALIGN_VERIF
+
+#include <stdio.h>
+#include <stdlib.h>
+#include <string.h>
+#include <stdint.h>
+#include <math.h>
+#include <pthread.h>
+#include <unistd.h>
+
+#ifdef HAVE_OPENMP
+#include <omp.h>
+#endif
+
+#include "msa_struct.h"
+#include "task.h"
+#include "aln_struct.h"
+#include "aln_param.h"
+#include "kalign_verif.h"
+
+int kv_level = 0;
+int kv_hirsch_serial = 0;
+
+static FILE* kv_sink = NULL;
+static pthread_mutex_t kv_mu = PTHREAD_MUTEX_INITIALIZER;
+static long kv_seq = 0;
+static unsigned int kv_perturb_seed = 0;
+
+/* above this many integers an array is logged as a digest only (unless level >= 3) */
+#define KV_FULL_LIMIT 4096
+
+struct kv_buf{
+        char* s;
+        size_t n;
+        size_t cap;
+};
+
+static void kb_init(struct kv_buf* b)
+{
+        b->cap = 256;
+        b->n = 0;
+        b->s = malloc(b->cap);
+        b->s[0] = 0;
+}
+
+static void kb_need(struct kv_buf* b, size_t extra)
+{
+        if(b->n + extra + 1 > b->cap){
+                while(b->n + extra + 1 > b->cap){
+                        b->cap *= 2;
+                }
+                b->s = realloc(b->s, b->cap);
+        }
+}
+
+static void kb_str(struct kv_buf* b, const char* s)
+{
+        size_t l = strlen(s);
+        kb_need(b, l);
+        memcpy(b->s + b->n, s, l + 1);
+        b->n += l;
+}
+
+static void kb_int(struct kv_buf* b, long v)
+{
+        char tmp[32];
+        snprintf(tmp, sizeof tmp, "%ld", v);
+        kb_str(b, tmp);
+}
+
+static void kb_key(struct kv_buf* b, const char* k)
+{
+        kb_str(b, ",\"");
+        kb_str(b, k);
+        kb_str(b, "\":");
+}
+
+static void kb_kint(struct kv_buf* b, const char* k, long v)
+{
+        kb_key(b, k);
+        kb_int(b, v);
+}
+
+static void kb_ints(struct kv_buf* b, const char* k, const int* a, int n)
+{
+        int i;
+        kb_key(b, k);
+        kb_str(b, "[");
+        for(i = 0; i < n; i++){
+                if(i){
+                        kb_str(b, ",");
+                }
+                kb_int(b, a[i]);
+        }
+        kb_str(b, "]");
+}
+
+/* FNV-1a, folded to 30 bits so that the value survives 32-bit signed integers */
+static uint64_t fnv_init(void)
+{
+        return 1469598103934665603ULL;
+}
+
+static uint64_t fnv_add(uint64_t h, const void* p, size_t n)
+{
+        const unsigned char* c = p;
+        size_t i;
+        for(i = 0; i < n; i++){
+                h ^= c[i];
+                h *= 1099511628211ULL;
+        }
+        return h;
+}
+
+static uint64_t fnv_int(uint64_t h, int v)
+{
+        return fnv_add(h, &v, sizeof v);
+}
+
+static uint32_t fold30(uint64_t h)
+{
+        return (uint32_t)((h ^ (h >> 30) ^ (h >> 60)) & 0x3fffffffULL);
+}
+
+uint32_t kv_digest_ints(const int* a, int n)
+{
+        uint64_t h = fnv_init();
+        h = fnv_int(h, n);
+        h = fnv_add(h, a, sizeof(int) * (size_t)n);
+        return fold30(h);
+}
+
+static int kv_tid(void)
+{
+#ifdef HAVE_OPENMP
+        /* thread number within the innermost team plus 1000 * nesting level */
+        return omp_get_thread_num() + 1000 * omp_get_level();
+#else
+        return 0;
+#endif
+}
+
+static void kv_write(const char* event, struct kv_buf* b)
+{
+        pthread_mutex_lock(&kv_mu);
+        if(kv_sink){
+                kv_seq++;
+                fprintf(kv_sink, "{\"e\":\"%s\",\"q\":%ld,\"t\":%d%s}\n", event, kv_seq, kv_tid(), b ? b->s : "");
+        }
+        pthread_mutex_unlock(&kv_mu);
+        if(b){
+                free(b->s);
+        }
+}
+
+void kv_enable(FILE* sink, int level)
+{
+        pthread_mutex_lock(&kv_mu);
+        kv_sink = sink;
+        kv_level = level;
+        pthread_mutex_unlock(&kv_mu);
+}
+
+void kv_disable(void)
+{
+        pthread_mutex_lock(&kv_mu);
+        if(kv_sink){
+                fflush(kv_sink);
+        }
+        kv_sink = NULL;
+        kv_level = 0;
+        pthread_mutex_unlock(&kv_mu);
+}
+
+void kv_flush(void)
+{
+        pthread_mutex_lock(&kv_mu);
+        if(kv_sink){
+                fflush(kv_sink);
+        }
+        pthread_mutex_unlock(&kv_mu);
+}
+
+void kv_set_perturb(unsigned int seed)
+{
+        kv_perturb_seed = seed;
+}
+
+void kv_perturb(int point)
+{
+        static unsigned int counter = 0;
+        unsigned int x;
+        if(!kv_perturb_seed){
+                return;
+        }
+        x = __atomic_add_fetch(&counter, 1, __ATOMIC_RELAXED);
+        x = (x * 2654435761u) ^ (kv_perturb_seed * 40503u) ^ ((unsigned int)point * 97u) ^ ((unsigned int)kv_tid() * 7919u);
+        x ^= x >> 13;
+        x *= 2246822519u;
+        x ^= x >> 16;
+        if((x & 3u) == 0u){
+                usleep(x % 200u);
+        }else if((x & 3u) == 1u){
+                sched_yield();
+        }
+}
+
+void kv_raw(const char* event, const char* body)
+{
+        struct kv_buf b;
+        kb_init(&b);
+        if(body && body[0]){
+                kb_str(&b, ",");
+                kb_str(&b, body);
+        }
+        kv_write(event, &b);
+}
+
+static long r10(float x)
+{
+        return lroundf(x * 10.0f);
+}
+
+/* --- run level ---------------------------------------------------------- */
+
+void kv_run_begin(struct msa* msa, int n_threads, int type, float gpo, float gpe, float tgpe)
+{
+        struct kv_buf b;
+        kb_init(&b);
+        kb_kint(&b, "n", msa ? msa->numseq : -1);
+        kb_kint(&b, "biotype", msa ? msa->biotype : -1);
+        kb_kint(&b, "status", msa ? msa->aligned : -1);
+        kb_kint(&b, "threads", n_threads);
+        kb_kint(&b, "type", type);
+        kb_kint(&b, "gpo", r10(gpo));
+        kb_kint(&b, "gpe", r10(gpe));
+        kb_kint(&b, "tgpe", r10(tgpe));
+        kv_write("RunBegin", &b);
+}
+
+static void kb_seq_lens_ranks(struct kv_buf* b, struct msa* msa)
+{
+        int i;
+        int* tmp = malloc(sizeof(int) * (size_t)(msa->numseq + 1));
+        for(i = 0; i < msa->numseq; i++){
+                tmp[i] = msa->sequences[i]->len;
+        }
+        kb_ints(b, "lens", tmp, msa->numseq);
+        for(i = 0; i < msa->numseq; i++){
+                tmp[i] = msa->sequences[i]->rank;
+        }
+        kb_ints(b, "ranks", tmp, msa->numseq);
+        free(tmp);
+}
+
+void kv_ranked(struct msa* msa)
+{
+        struct kv_buf b;
+        kb_init(&b);
+        kb_kint(&b, "n", msa->numseq);
+        kb_seq_lens_ranks(&b, msa);
+        kv_write("Ranked", &b);
+}
+
+void kv_sorted(struct msa* msa)
+{
+        struct kv_buf b;
+        kb_init(&b);
+        kb_kint(&b, "n", msa->numseq);
+        kb_seq_lens_ranks(&b, msa);
+        kv_write("Sorted", &b);
+}
+
+void kv_params(struct aln_param* ap, int biotype)
+{
+        struct kv_buf b;
+        int i, j;
+        int n = 23;
+        int* flat = malloc(sizeof(int) * 23 * 23);
+        kb_init(&b);
+        kb_kint(&b, "biotype", biotype);
+        kb_kint(&b, "gpo", r10(ap->gpo));
+        kb_kint(&b, "gpe", r10(ap->gpe));
+        kb_kint(&b, "tgpe", r10(ap->tgpe));
+        for(i = 0; i < n; i++){
+                for(j = 0; j < n; j++){
+                        flat[i * n + j] = (int)r10(ap->subm[i][j]);
+                }
+        }
+        kb_ints(&b, "subm", flat, n * n);
+        free(flat);
+        kv_write("Params", &b);
+}
+
+static uint32_t leaf_digest(struct msa* msa, int i)
+{
+        uint64_t h = fnv_init();
+        h = fnv_int(h, msa->sequences[i]->len);
+        h = fnv_add(h, msa->sequences[i]->s, (size_t)msa->sequences[i]->len);
+        return fold30(h);
+}
+
+void kv_tree(struct msa* msa, struct aln_tasks* t)
+{
+        struct kv_buf b;
+        int i;
+        int* tmp = malloc(sizeof(int) * (size_t)(3 * t->n_tasks + msa->numseq + 1));
+        kb_init(&b);
+        kb_kint(&b, "n", msa->numseq);
+        kb_kint(&b, "ntasks", t->n_tasks);
+        for(i = 0; i < t->n_tasks; i++){
+                tmp[3 * i] = t->list[i]->a;
+                tmp[3 * i + 1] = t->list[i]->b;
+                tmp[3 * i + 2] = t->list[i]->c;
+        }
+        kb_ints(&b, "abc", tmp, 3 * t->n_tasks);
+        for(i = 0; i < msa->numseq; i++){
+                tmp[i] = (int)leaf_digest(msa, i);
+        }
+        kb_ints(&b, "leaf", tmp, msa->numseq);
+        free(tmp);
+        kv_write("Tree", &b);
+}
+
+void kv_final(struct msa* msa)
+{
+        struct kv_buf b;
+        kb_init(&b);
+        kb_kint(&b, "n", msa->numseq);
+        kb_kint(&b, "alnlen", msa->alnlen);
+        kb_kint(&b, "status", msa->aligned);
+        kv_write("Final", &b);
+}
+
+void kv_run_end(struct msa* msa, int rc)
+{
+        struct kv_buf b;
+        kb_init(&b);
+        kb_kint(&b, "rc", rc);
+        kb_kint(&b, "n", msa ? msa->numseq : -1);
+        kv_write("RunEnd", &b);
+        kv_flush();
+}
+
+/* --- merges ------------------------------------------------------------- */
+
+/* what a later merge reads from node x: plen, member list, the members' gap vectors and the profile */
+static uint32_t node_digest(struct msa* msa, struct aln_tasks* t, int x, int with_profile)
+{
+        uint64_t h = fnv_init();
+        int i;
+        if(x < msa->numseq){
+                return leaf_digest(msa, x);
+        }
+        h = fnv_int(h, msa->plen[x]);
+        h = fnv_int(h, msa->nsip[x]);
+        for(i = 0; i < msa->nsip[x]; i++){
+                struct msa_seq* s = msa->sequences[msa->sip[x][i]];
+                h = fnv_int(h, msa->sip[x][i]);
+                h = fnv_add(h, s->gaps, sizeof(int) * (size_t)(s->len + 1));
+        }
+        if(with_profile && t->profile[x]){
+                /* columns 0..plen+1; slots 27..29 are skipped: the reader itself rewrites
+                   them (set_gap_penalties_n) before it looks at the profile */
+                int c, k;
+                for(c = 0; c <= msa->plen[x] + 1; c++){
+                        const float* p = t->profile[x] + 64 * c;
+                        for(k = 0; k < 27; k++){
+                                h = fnv_add(h, &p[k], sizeof(float));
+                        }
+                        for(k = 32; k < 58; k++){
+                                h = fnv_add(h, &p[k], sizeof(float));
+                        }
+                }
+        }
+        return fold30(h);
+}
+
+void kv_merge_begin(struct msa* msa, struct aln_tasks* t, int task_id)
+{
+        struct kv_buf b;
+        int a = t->list[task_id]->a;
+        int bb = t->list[task_id]->b;
+        int c = t->list[task_id]->c;
+        kv_perturb(1);
+        kb_init(&b);
+        kb_kint(&b, "c", c);
+        kb_kint(&b, "a", a);
+        kb_kint(&b, "b", bb);
+        kb_kint(&b, "inA", node_digest(msa, t, a, 1));
+        kb_kint(&b, "inB", node_digest(msa, t, bb, 1));
+        kv_write("MergeBegin", &b);
+}
+
+void kv_merge_end(struct msa* msa, struct aln_tasks* t, struct aln_mem* m, int task_id)
+{
+        struct kv_buf b;
+        int a = t->list[task_id]->a;
+        int bb = t->list[task_id]->b;
+        int c = t->list[task_id]->c;
+        int plen = m->path[0];
+        int i;
+        int root = (task_id == t->n_tasks - 1);
+        long total = 0;
+        kb_init(&b);
+        kb_kint(&b, "c", c);
+        kb_kint(&b, "a", a);
+        kb_kint(&b, "b", bb);
+        kb_kint(&b, "plen", plen);
+        kb_kint(&b, "la", m->len_a);
+        kb_kint(&b, "lb", m->len_b);
+        kb_kint(&b, "na", msa->nsip[a]);
+        kb_kint(&b, "nb", msa->nsip[bb]);
+        kb_kint(&b, "out", node_digest(msa, t, c, !root));
+        kb_kint(&b, "pdg", kv_digest_ints(m->path + 1, plen));
+        for(i = 0; i < msa->nsip[c]; i++){
+                total += msa->sequences[msa->sip[c][i]]->len + 1;
+        }
+        if(kv_level >= 2 && (kv_level >= 3 || (total <= KV_FULL_LIMIT && plen <= KV_FULL_LIMIT))){
+                int* tmp = malloc(sizeof(int) * (size_t)(plen + 1));
+                for(i = 0; i < plen; i++){
+                        tmp[i] = m->path[i + 1] & 3;
+                }
+                kb_ints(&b, "path", tmp, plen);
+                free(tmp);
+                kb_ints(&b, "members", msa->sip[c], msa->nsip[c]);
+                kb_key(&b, "gaps");
+                kb_str(&b, "[");
+                for(i = 0; i < msa->nsip[c]; i++){
+                        struct msa_seq* s = msa->sequences[msa->sip[c][i]];
+                        int j;
+                        if(i){
+                                kb_str(&b, ",");
+                        }
+                        kb_str(&b, "[");
+                        for(j = 0; j <= s->len; j++){
+                                if(j){
+                                        kb_str(&b, ",");
+                                }
+                                kb_int(&b, s->gaps[j]);
+                        }
+                        kb_str(&b, "]");
+                }
+                kb_str(&b, "]");
+        }
+        kv_perturb(2);
+        kv_write("MergeEnd", &b);
+}
+
+/* --- Hirschberg controller ---------------------------------------------- */
+
+static uint32_t mem_id(struct aln_mem* m)
+{
+        uint64_t h = fnv_init();
+        uintptr_t p = (uintptr_t)m;
+        h = fnv_add(h, &p, sizeof p);
+        return fold30(h);
+}
+
+static uint32_t states_digest(struct states* s, int from, int to)
+{
+        uint64_t h = fnv_init();
+        int i;
+        for(i = from; i <= to; i++){
+                h = fnv_add(h, &s[i].a, sizeof(float));
+                h = fnv_add(h, &s[i].ga, sizeof(float));
+                h = fnv_add(h, &s[i].gb, sizeof(float));
+        }
+        return fold30(h);
+}
+
+void kv_hstep(struct aln_mem* m, int old_cor[], int par)
+{
+        struct kv_buf b;
+        if(!par && !kv_hirsch_serial){
+                return;
+        }
+        kb_init(&b);
+        kb_kint(&b, "m", mem_id(m));
+        kb_kint(&b, "sa", old_cor[0]);
+        kb_kint(&b, "ea", old_cor[1]);
+        kb_kint(&b, "sb", old_cor[2]);
+        kb_kint(&b, "eb", old_cor[3]);
+        kb_kint(&b, "par", par);
+        kb_kint(&b, "kind", m->seq1 ? 0 : (m->prof2 ? 2 : 1));
+        kv_write("HStep", &b);
+}
+
+void kv_hfwd(struct aln_mem* m)
+{
+        struct kv_buf b;
+        kv_perturb(3);
+        kb_init(&b);
+        kb_kint(&b, "m", mem_id(m));
+        kb_kint(&b, "dg", states_digest(m->f, m->startb, m->endb));
+        kv_write("HFwd", &b);
+}
+
+void kv_hbwd(struct aln_mem* m)
+{
+        struct kv_buf b;
+        kv_perturb(4);
+        kb_init(&b);
+        kb_kint(&b, "m", mem_id(m));
+        kb_kint(&b, "dg", states_digest(m->b, m->startb, m->endb));
+        kv_write("HBwd", &b);
+}
+
+void kv_hmeet(struct aln_mem* m, int old_cor[])
+{
+        struct kv_buf b;
+        kb_init(&b);
+        kb_kint(&b, "m", mem_id(m));
+        kb_kint(&b, "f", states_digest(m->f, old_cor[2], old_cor[3]));
+        kb_kint(&b, "b", states_digest(m->b, old_cor[2], old_cor[3]));
+        kv_write("HMeet", &b);
+}
+
+void kv_hsplit(struct aln_mem* m, int old_cor[], int meet, int transition, int serial)
+{
+        struct kv_buf b;
+        if(serial && !kv_hirsch_serial){
+                return;
+        }
+        kb_init(&b);
+        kb_kint(&b, "m", mem_id(m));
+        kb_kint(&b, "sa", old_cor[0]);
+        kb_kint(&b, "ea", old_cor[1]);
+        kb_kint(&b, "sb", old_cor[2]);
+        kb_kint(&b, "eb", old_cor[3]);
+        kb_kint(&b, "mid", old_cor[4]);
+        kb_kint(&b, "meet", meet);
+        kb_kint(&b, "tr", transition);
+        kb_kint(&b, "serial", serial);
+        kv_write("HSplit", &b);
+}
+
+/* --- guide tree --------------------------------------------------------- */
+
+void kv_dm(float** dm, int rows, int cols, int pair)
+{
+        struct kv_buf b;
+        uint64_t h = fnv_init();
+        int i;
+        for(i = 0; i < rows; i++){
+                h = fnv_add(h, dm[i], sizeof(float) * (size_t)cols);
+        }
+        kb_init(&b);
+        kb_kint(&b, "rows", rows);
+        kb_kint(&b, "cols", cols);
+        kb_kint(&b, "pair", pair);
+        kb_kint(&b, "dg", fold30(h));
+        if(kv_level >= 2 && (long)rows * cols <= KV_FULL_LIMIT){
+                int j;
+                int* tmp = malloc(sizeof(int) * (size_t)(rows * cols + 1));
+                for(i = 0; i < rows; i++){
+                        for(j = 0; j < cols; j++){
+                                /* distance * 10000 fits: BPM <= 1024, length term <= 1 */
+                                tmp[i * cols + j] = (int)lroundf(dm[i][j] * 10000.0f);
+                        }
+                }
+                kb_ints(&b, "d", tmp, rows * cols);
+                free(tmp);
+        }
+        kv_write("Dm", &b);
+}
+
+void kv_km_node(uint32_t id, int num_samples, int leaf)
+{
+        struct kv_buf b;
+        kb_init(&b);
+        kb_kint(&b, "id", id);
+        kb_kint(&b, "n", num_samples);
+        kb_kint(&b, "leaf", leaf);
+        kv_write("KmNode", &b);
+}
+
+uint32_t kv_km_result_digest(const int* sl, int nl, const int* sr, int nr, float score)
+{
+        uint64_t h = fnv_init();
+        h = fnv_int(h, nl);
+        h = fnv_int(h, nr);
+        if(nl > 0){
+                h = fnv_add(h, sl, sizeof(int) * (size_t)nl);
+        }
+        if(nr > 0){
+                h = fnv_add(h, sr, sizeof(int) * (size_t)nr);
+        }
+        h = fnv_add(h, &score, sizeof(float));
+        return fold30(h);
+}
+
+void kv_km_split(const int* samples, int num_samples, int seed_pick, const int* sl, int nl, const int* sr, int nr, float score)
+{
+        struct kv_buf b;
+        kv_perturb(5);
+        kb_init(&b);
+        kb_kint(&b, "id", kv_digest_ints(samples, num_samples));
+        kb_kint(&b, "seed", seed_pick);
+        kb_kint(&b, "nl", nl);
+        kb_kint(&b, "nr", nr);
+        kb_kint(&b, "dg", kv_km_result_digest(sl, nl, sr, nr, score));
+        kv_write("KmSplit", &b);
+}
+
+void kv_km_reduce(uint32_t id, int i, int step, const uint32_t dg[4])
+{
+        struct kv_buf b;
+        int tmp[4];
+        int k;
+        kb_init(&b);
+        kb_kint(&b, "id", id);
+        kb_kint(&b, "i", i);
+        kb_kint(&b, "step", step);
+        for(k = 0; k < 4; k++){
+                tmp[k] = (int)dg[k];
+        }
+        kb_ints(&b, "dg", tmp, 4);
+        kv_write("KmReduce", &b);
+}
+
+void kv_km_kids(uint32_t id, uint32_t l, uint32_t r, int nl, int nr)
+{
+        struct kv_buf b;
+        kb_init(&b);
+        kb_kint(&b, "id", id);
+        kb_kint(&b, "l", l);
+        kb_kint(&b, "r", r);
+        kb_kint(&b, "nl", nl);
+        kb_kint(&b, "nr", nr);
+        kv_write("KmKids", &b);
+}
+
+void kv_km_done(uint32_t id)
+{
+        struct kv_buf b;
+        kv_perturb(6);
+        kb_init(&b);
+        kb_kint(&b, "id", id);
+        kv_write("KmDone", &b);
+}
+
+#else
+
+/* ISO C forbids an empty translation unit */
+typedef int kalign_verif_guard_is_off;
+
+#endif
